@@ -430,6 +430,28 @@ pub fn run(ctx: &Ctx) -> i32 {
     let r = util::par_forked(&cfg, 64, |sh| pair_laws(&members, sh));
     total.extra.insert("pool".into(), json!(members.len()));
     total.merge(r);
+    // removal next to assertions and locals: a field that does not read the removed one keeps
+    // its value (the assertion is not a field)
+    {
+        const REMOVAL_CASES: &[(&str, &str, &str)] = &[
+            ("std.objectRemoveKey({assert self.k > 0, k: 1, x: 2}, \"k\").x", "2", "assertion-reads-removed-key"),
+            ("std.objectRemoveKey({assert self.x > 0, k: 1, x: 2}, \"k\").x", "2", "assertion-reads-kept-key"),
+            ("std.objectRemoveKey({local l = self.k, k: 1, x: 2, y: l}, \"k\").x", "2", "unused-local-reads-removed-key"),
+            ("std.objectRemoveKey({assert self.x > 0, k: 1, x: 2} + {assert self.x < 5}, \"k\")", "{\"x\": 2}", "assertions-read-kept-key"),
+            ("std.objectFields(std.objectRemoveKey({assert self.k > 0, k: 1, x: 2}, \"k\"))", "[\"x\"]", "field-names-after-removal"),
+            ("std.objectRemoveKey({k: 1, x: 2, m(a):: a + self.x}, \"k\").m(1)", "3", "method-reads-kept-key"),
+            ("(std.objectRemoveKey({k: 1, x: 2}, \"k\") + {assert !(\"k\" in self)}).x", "2", "later-assertion-sees-removal"),
+        ];
+        for (src, want, tag) in REMOVAL_CASES {
+            let o = rt::run_fresh(src.as_bytes(), &RunCfg::default()).outcome;
+            total.evaluations += 1;
+            total.states += 1;
+            let ok = matches!(&o, Outcome::Value(v) if serde_json::from_str::<serde_json::Value>(v).ok() == serde_json::from_str::<serde_json::Value>(want).ok());
+            if !ok {
+                total.violation(format!("C07/removeKey/{tag}"), format!("`{src}` should be {want} but gives {}", o.short()), json!({"type":"eval","source":src}));
+            }
+        }
+    }
     util::finish(
         ctx,
         LevelInfo {
